@@ -145,7 +145,7 @@ class Exec:
                 take = [n for k, n in enumerate(self.pending) if (op[1] >> k) & 1 or op[1] == 0]
             label = "m%d" % self.n_blk
             parent = next(l for l, blk in self.run.world.blocks.items() if blk.id() == cs.current_chain_hash)
-            bop = {"label": label, "parent": parent, "miner": op[2] % len(KEYS), "dt": 120, "txs": [{"copy": n} for n in take]}
+            bop = {"label": label, "parent": parent, "miner": op[2] % len(KEYS), "dt": self.run.world.safe_dt(self.head(), 120), "txs": [{"copy": n} for n in take]}
             self.run.case = {"cfg": self.run.case["cfg"], "ops": [bop]}
             n0 = len(self.run.fails)
             self.run.execute()
